@@ -97,7 +97,7 @@ class Env:
 
 
 def assume_text(st, env, text):
-    """add constraint(s) to st; returns list of states (forks on !=)"""
+    """add constraint(s) to st; returns list of states"""
     states = [st]
     for clause in env.constraints(text):
         nxt = []
@@ -105,6 +105,16 @@ def assume_text(st, env, text):
             if len(clause) == 1:
                 for l in clause[0]:
                     s.cons.add(l)
+                nxt.append(s)
+            elif len(clause) == 2 and len(clause[0]) == 1 and len(clause[1]) == 1:
+                # a != b : clause[0] = [a - b + 1], i.e. d = a - b
+                d = clause[0][0] - 1
+                if s.cons.entails(d):          # a <= b known
+                    s.cons.add(d + 1)
+                elif s.cons.entails(-d):       # a >= b known
+                    s.cons.add(-d + 1)
+                else:
+                    s.add_diseq(d, 0)
                 nxt.append(s)
             else:
                 for alt in clause:
@@ -122,6 +132,8 @@ def entails_text(st, env, text):
             if not all(st.cons.entails(l) for l in clause[0]):
                 return False
         else:
+            if len(clause) == 2 and len(clause[0]) == 1 and st.known_diseq(clause[0][0] - 1, 0):
+                continue
             if not any(all(st.cons.entails(l) for l in alt) for alt in clause):
                 return False
     return True
@@ -391,6 +403,11 @@ class ContractRun:
         elif isinstance(rv, CondVal):
             d = interp.decide(T, rv)
             e.bind('ret', Lin(1 if d else 0) if d is not None else None)
+        for gk, gv in T.ghost.items():
+            if isinstance(gv, Lin):
+                e.bind('ghost_' + gk, gv)
+            elif isinstance(gv, int) and not isinstance(gv, bool):
+                e.bind('ghost_' + gk, Lin(gv))
         for pc in (spec.post if posts is None else posts):
             Ts = [T.fork()]
             vac = False
